@@ -173,3 +173,46 @@ def aux_poll_bodies(model):
         adt = model.adt_of_type(b.impl_self) if b.impl_self is not None else None
         out.append(Unit(model, simple_name(adt) or b.def_, b, "aux", "aux"))
     return out
+
+
+def ctor_fields(model, member):
+    """field name -> value term of the aggregate that builds the member's ADT, searched in the
+    family trait method and the inherent `new`.  Returns (fields, body, BodyInfo) or (None, None, None)."""
+    for body in (member.ctor, member.new):
+        if body is None:
+            continue
+        bi = model.info(body)
+        for b in sorted(body.reachable):
+            if body.is_cleanup(b):
+                continue
+            for s in body.stmts(b):
+                if s["k"] == "assign" and s["rv"]["k"] == "agg" and s["rv"].get("ak") == "adt" and s["rv"].get("cpath") == member.adt:
+                    names = s["rv"]["fnames"]
+                    vals = [bi.T.of_operand(f) for f in s["rv"]["fields"]]
+                    return dict(zip(names, vals)), body, bi
+    return None, None, None
+
+
+def loop_domain(unit, cps):
+    """Classify the scan loop's iteration domain for a CPS: returns (kind, detail term)."""
+    idx = cps.loop_idx if cps.pos is not None else cps.idx
+    if idx is None:
+        return None, None
+    root = scan.root_call(idx)
+    if root is None or root[1][1] != "next" or not root[2]:
+        return None, None
+    it = root[2][0]
+    if it[0] == "agg" and it[1] == ("Range", "Range"):
+        return "range", it[2]
+    if it[0] == "call":
+        key = it[1]
+        if key == ("Indexer", "iter"):
+            return "indexer", it[2][0]
+        if key[1] == "enumerate":
+            return "enumerate", it[2][0]
+        if key[1] == "cloned" and it[2] and it[2][0][0] == "call" and it[2][0][1][1] == "iter":
+            return "keys", it[2][0][2][0]
+        if key[1] == "zip":
+            return "zip", it
+        return key[1], it
+    return None, it
